@@ -235,10 +235,10 @@ func run(seed int64, n int, dir string, _ []string) {
 			}
 			nitems = len(colIdx)
 		}
-		itemToks, itemSQL := make([]string, nitems), make([]string, nitems)
+		itemToks, itemSQL, itemSuffix := make([]string, nitems), make([]string, nitems), make([]string, nitems)
 		for k := 0; k < nitems; k++ {
 			d, np := g.Pick("a", "d", "A"), g.Pick("-", "f", "l")
-			sql := cols[colIdx[k]]
+			sql := ""
 			switch d {
 			case "a":
 				sql += " ASC"
@@ -253,12 +253,11 @@ func run(seed int64, n int, dir string, _ []string) {
 			case "l":
 				sql += " NULLS LAST"
 			}
-			itemToks[k], itemSQL[k] = d+np, sql
+			itemToks[k], itemSuffix[k] = d+np, sql
 		}
 		if t == 1 {
-			itemToks, itemSQL = []string{"a-", "d-"}, []string{"c1", "c2 DESC"}
+			itemToks, itemSuffix = []string{"a-", "d-"}, []string{"", " DESC"}
 		}
-		orderBy := " ORDER BY " + strings.Join(itemSQL, ", ")
 		sortCells := func(id int) string {
 			s := make([]string, 0, nitems+1)
 			s = append(s, strconv.Itoa(id))
@@ -275,10 +274,25 @@ func run(seed int64, n int, dir string, _ []string) {
 		}
 		plist := strings.Join(pcols, ", ")
 		ca, cb := cols[g.Intn(ncols)], cols[g.Intn(ncols)]
-		shape := []int{0, 0, 1, 2, 2, 2, 2, 3, 3, 4, 5, 6, 7, 7, 8}[g.Intn(15)]
+		shape := []int{0, 0, 1, 2, 2, 2, 2, 3, 3, 4, 5, 6, 7, 7, 8, 9, 9, 10, 10, 11, 11, 11, 12, 12, 12}[g.Intn(25)]
 		if t <= 1 {
 			shape = 0
 		}
+		if t == 2 {
+			shape = 9 // the first computed-key shape always runs
+		}
+		if (shape == 11 || shape == 12) && ncols < 2 {
+			shape = 10
+		}
+		// the columns rotated by one: every column of the select list stands at another position than in the table
+		rot := make([]string, ncols)
+		for j := range rot {
+			rot[j] = cols[(j+1)%ncols]
+		}
+		cc := cols[g.Intn(ncols)]
+		// a computed ORDER BY key: COALESCE(c, c) has the column's value but is an expression — ORDER BY evaluates it into
+		// a NEW cell appended to every record (a plain column / alias is found in the header instead)
+		computedKeys := false
 		keep := func(id int) bool { return true }
 		var prefix string
 		switch shape {
@@ -304,9 +318,40 @@ func run(seed int64, n int, dir string, _ []string) {
 			k, l := g.Intn(nrows/3+1), 1+g.Intn(nrows+1)
 			prefix = fmt.Sprintf("SELECT id FROM (SELECT * FROM t ORDER BY id DESC LIMIT %d OFFSET %d) AS s", l, k)
 			keep = func(id int) bool { return id <= nrows-1-k && id > nrows-1-k-l }
+		case 9:
+			// a computed select-list column (expression) × computed ORDER BY keys: two column-adding steps in one query
+			prefix = "SELECT id, " + plist + ", id * 2 + 1 AS e1, COALESCE(" + ca + ", " + cb + ") AS e2 FROM t"
+			computedKeys = true
+		case 10:
+			// a computed select-list column (analytic function) × computed ORDER BY keys
+			prefix = "SELECT id, ROW_NUMBER() OVER (ORDER BY " + ca + g.Pick("", " DESC") + ") AS rn, " + plist + " FROM t"
+			computedKeys = true
+		case 11:
+			// SELECT DISTINCT that removes nothing (id is in the list), a select list that REORDERS the table's columns, an
+			// analytic function whose PARTITION BY / ORDER BY columns have filled the per-cell sort-value cache before, then
+			// ORDER BY on the reordered columns: no key may come from the column that used to stand at that position
+			prefix = "SELECT DISTINCT id, " + strings.Join(rot, ", ") + ", COUNT(*) OVER (PARTITION BY " + ca + " ORDER BY " + cb + ") AS n FROM t"
+		case 12:
+			// two analytic functions sharing a PARTITION BY, the second one sorting the rows differently: the keys cached
+			// for the first must move with the rows
+			prefix = "SELECT id, " + plist + ", SUM(id) OVER (PARTITION BY " + ca + " ORDER BY " + cb + " DESC) AS s1, COUNT(*) OVER (PARTITION BY " + ca + " ORDER BY " + cc + ", id) AS n2 FROM t"
+			computedKeys = g.Intn(3) == 0
 		default:
 			prefix = "SELECT id FROM t"
+			computedKeys = t > 2 && g.Intn(4) == 0
 		}
+		if (shape == 3 || shape == 4 || shape == 6) && g.Intn(3) == 0 {
+			computedKeys = true
+		}
+		for k := 0; k < nitems; k++ {
+			c := cols[colIdx[k]]
+			if computedKeys && (k == 0 || g.Intn(3) > 0) {
+				c = "COALESCE(" + c + ", " + c + ")"
+				o.Count("computed_key")
+			}
+			itemSQL[k] = c + itemSuffix[k]
+		}
+		orderBy := " ORDER BY " + strings.Join(itemSQL, ", ")
 		o.Count(fmt.Sprintf("shape:%d", shape))
 		v, err := pr.Query(prefix + orderBy)
 		if err != nil {
@@ -334,6 +379,9 @@ func run(seed int64, n int, dir string, _ []string) {
 		}
 		if !okPerm || len(order) != nkept {
 			o.Law("order_by_permutation", map[string]interface{}{"sql": prefix + orderBy, "rows": nrows, "out": joinInts(order)})
+			// the rows that came out are not the rows that went in: there is no order to check
+			pr.DisposeTable("t")
+			continue
 		}
 		rowToks := make([]string, len(order))
 		for i, id := range order {
